@@ -243,14 +243,14 @@ static void *group_thread(void *arg) {
 			gitem *it = malloc(sizeof *it); it->grp = grp; it->handoff = 0; it->body = (int)(op->arg & 1);
 			h_log("t%d group_async g%d", th, grp);
 			GP.pending_async++;
-			dispatch_group_async_f(GP.g[grp], GP.q[op->q], it, g_item_fn);
+			if (op->arg & 4) dispatch_group_async(GP.g[grp], GP.q[op->q], ^{ g_item_fn(it); }); else dispatch_group_async_f(GP.g[grp], GP.q[op->q], it, g_item_fn);
 			GP.L[grp]++; GP.enters[grp]++;   // implied enter has certainly happened once the call returned
 			// (the item may already have finished: then its decrement came first and L is back where it was)
 			break; }
 		case G_NOTIFY: {
 			int w = g_watch_begin(grp, G_NOTIFY);
 			h_log("t%d notify g%d -> block %d", th, grp, w);
-			dispatch_group_notify_f(GP.g[grp], GP.q[op->q], &GP.w[w], g_notify_fn);
+			if (op->arg & 4) { void *wp = &GP.w[w]; dispatch_group_notify(GP.g[grp], GP.q[op->q], ^{ g_notify_fn(wp); }); } else dispatch_group_notify_f(GP.g[grp], GP.q[op->q], &GP.w[w], g_notify_fn);
 			break; }
 		case G_WAIT_FOREVER: case G_WAIT_TIMED: case G_WAIT_NOW: {
 			dispatch_time_t t = op->kind == G_WAIT_FOREVER ? DISPATCH_TIME_FOREVER : op->kind == G_WAIT_NOW ? DISPATCH_TIME_NOW : dispatch_time(DISPATCH_TIME_NOW, (int64_t)op->arg);
